@@ -221,7 +221,27 @@ def canonZip : List Ty → List Payload → List Payload
   | _, vs => vs
 end
 
+/-- `r` holds between any two different positions (earlier, later) -/
+def pairwiseB {α : Type} (r : α → α → Bool) : List α → Bool
+  | [] => true
+  | x :: xs => xs.all (fun y => r x y) && pairwiseB r xs
+
 end D03b
+
+/-- **a well-formed set node** (`set.Set` invariant + the carrier of the `Equals`
+theorems), decidable: the bucket ids are the members' hashes; every member is
+well-formed, mark-free, quotable, wholly known with integer numbers; no two members
+are `RawEquals`; `Less` is a strict total order on the members -/
+def Payload.setWF (e : Ty) (ids : List Int) (vs : List Payload) : Bool :=
+  ids == vs.map (ctyRules e).hash &&
+  vs.all (fun v => v.shaped e && !v.containsMarked && v.quotable && v.whollyKnown && v.intNums) &&
+  D03b.pairwiseB (fun a b => !Payload.rawTrue e a b) vs &&
+  Payload.lessStrictTotal e vs
+
+/-- …as a predicate on a member of a set of sets -/
+def Payload.setMemberWF (e : Ty) : Payload → Bool
+  | .sset ids vs => Payload.setWF e ids vs
+  | _ => false
 
 /-! ### capsule types -/
 
